@@ -141,7 +141,7 @@ fn run_case(rng: &mut Rng, mode: &str, release: bool) -> String {
     let tn = if rng.chance(3, 4) && SIZES.contains(&n) { n } else { *rng.pick(&SIZES) };
     let op = if mode == "adv" { rng.below(5) } else { match rng.below(10) { 0 => 1, 1 => 2, 2 => 3, 3 => 4, _ => 0 } };
     // 0 read, 1 write, 2 write_array, 3 read_array, 4 sdo_info list / quantities
-    let kind = if mode == "adv" { let k = rng.below(17); 100 + if k >= 14 { 11 } else { k } } else { rng.below(12) };
+    let kind = if mode == "adv" { let k = rng.below(19); 100 + if k >= 16 { 11 } else if k >= 14 { 13 } else { k } } else { rng.below(12) };
     // faithful kinds: 0..5 plain, 6 abort, 7 emergency, 8 wrong object, 9 stale data first, 10 segment command 3, 11 first data in initiate response
     let upload_mode = rng.below(3);      // 0 expedited when possible, 1 normal when it fits, 2 segmented
     let seg_sizes: Vec<usize> = (0..600).map(|_| match rng.below(4) { 0 => rng.range(1, 6) as usize, 1 => 7, _ => rng.range(1, (mlen as usize).saturating_sub(9).max(1) as u64) as usize }).collect();
@@ -182,6 +182,16 @@ fn run_case(rng: &mut Rng, mode: &str, release: bool) -> String {
                 8 => { r = segment_reply(counter, false, false, &[], 0); if r.len() > 1 { r[0] = 3; } }    // endless empty segments
                 9 => { r = { let mut x = mbx_hdr(8 + 4, counter); x.extend_from_slice(&[0x00, 0x80, 0x82, 0, 1, 0, 1, 0, 2, 0]); x }; }  // endless fragments
                 10 => { r = { let mut x = mbx_hdr(8, counter); x.extend_from_slice(&[0x00, 0x80, 0x04, 0, 0, 0]); x }; }  // other op code forever
+                13 => {
+                    // a well-formed normal upload response for the right object whose mailbox length
+                    // field promises more (or less) data than the mailbox holds
+                    if service == 2 && (cmdbyte >> 5) == 2 {
+                        let total = if objc.len() as u64 <= tn as u64 { objc.len() as u32 } else { tn as u32 };
+                        r = normal_reply(counter, ridx, rsub, total, &objc[..objc.len().min((mlen as usize).saturating_sub(16)).min(total as usize)]);
+                        let l = match adv_rng.below(3) { 0 => (mlen as i64 - 8 + adv_rng.below(24) as i64).max(0) as u16, 1 => adv_rng.edgy(16) as u16, _ => 10 + total as u16 + adv_rng.below(6) as u16 };
+                        r[0] = l as u8; r[1] = (l >> 8) as u8;
+                    }
+                }
                 11 | 12 => {
                     // a segmented upload whose every segment is the same template: length field 3..12, any
                     // "unused bytes" count, mostly not the last one
